@@ -12,8 +12,6 @@ ok, log = C.run_gen()
 if not ok: print(log); sys.exit(1)
 ok, log = C.coq_build()
 if not ok: print(log[-5000:]); sys.exit(1)
-ok, log = C.build_runner()
-if not ok: print(log[-5000:]); sys.exit(1)
 import os
 for name in sorted(os.listdir(os.path.join(C.VERIF, "harness", "cmd"))):
     ok, log = C.build_harness(name)
